@@ -48,6 +48,7 @@ public:
     }
 
     void set_begin_epoch(const Epoch epoch) {
+        YK_VP(k_begin_pre, this, epoch, 0);
         begin_epoch_.store(epoch, std::memory_order_relaxed);
         YK_VP(k_begin_store, this, epoch, 0);
     }
